@@ -255,12 +255,15 @@ func runCtlHistory(t *testing.T, rec *Recorder, r *rand.Rand, profile string, st
 			}
 			time.Sleep(time.Duration(d) * time.Millisecond)
 			var err error
-			if r.Intn(80) == 0 {
+			if (profile == "C01" || profile == "C05") && r.Intn(80) == 0 {
+				// (not in the stall profiles, whose formulas take every failed cycle for a reported stall)
 				// the curve cannot be evaluated (its sensor is unreadable): the cycle fails, nothing is written, regulation ends
 				c.Curve.Err = fmt.Errorf("sensor unreadable")
 			}
 			if profile == "C05" && r.Intn(12) == 0 {
 				_, err = c.CycleRaced(cv, d)
+			} else if r.Intn(60) == 0 {
+				_, err = c.CycleWriteFault(cv, d)
 			} else {
 				_, err = c.Cycle(cv, d)
 			}
